@@ -207,7 +207,8 @@ def wild_newton_step(case, out):
     if case["solver"]["name"] != "ProxNewton":
         return False
     import json
-    ref = 1. + float(np.max(np.abs(out.w))) + (float(np.max(np.abs(case["init"]["w"]))) if case.get("init") else 0.)
+    wf = np.abs(np.asarray(out.w, float))
+    ref = 1. + (float(np.max(wf)) if np.all(np.isfinite(wf)) else 0.) + (float(np.max(np.abs(case["init"]["w"]))) if case.get("init") else 0.)
     for mi, mp in ((1, 1), (1, 2), (2, 1), (3, 1)):
         c = json.loads(json.dumps(case))
         c["solver"]["max_iter"], c["solver"]["max_pn_iter"] = mi, mp
